@@ -105,6 +105,24 @@ def wrapper_accumulate(tier):
             out.append(('accumulation-buffer-not-aliased-with-field', not np.shares_memory(c.raw_args[6], c.raw_args[5]), tag))
             out.append(('caller-flowdir-values-unchanged', np.array_equal(fd.data, fd0), tag))
             out.append(('caller-field-values-unchanged', np.array_equal(fld.data, fld0), tag))
+        # what the kernel writes into the accumulation buffer is what the caller gets, also for grids with data bounds
+        fldb = G.Grid('f', nc, nr, dtype=np.float64, nodata=-9.0)
+        fldb.data = np.full((nr, nc), 2.0)
+        fldb.mindata, fldb.maxdata = 0.0, 40.0
+        fdb = G.Grid('fd', nc, nr, dtype=np.int64)
+        fdb.data = np.full((nr, nc), 4, dtype=np.int64)
+        fdb.mindata, fdb.maxdata = 0, 128
+        written = np.arange(nr * nc, dtype=float).reshape(nr, nc) * 100.0 - 9.0
+
+        def fill(c, written=written):
+            c.raw_args[6][:] = written
+            return 0
+        for fld_arg in (fldb, None):
+            rec = Recorder({'accumulate': fill})
+            with patched_module(G, 'c_hydrodiy_gis', rec):
+                acc = G.accumulate(fdb, fld_arg) if fld_arg is not None else G.accumulate(fdb)
+            out.append(('result-returned-as-computed', np.array_equal(acc.data, written), dict(nrows=nr, ncols=nc, default_field=fld_arg is None,
+                                                                                               got=acc.data.ravel().tolist()[:4])))
         # explicit limit is passed through
         rec = Recorder()
         fd = G.Grid('fd', nc, nr, dtype=np.int64)
